@@ -412,6 +412,29 @@ func c19Body(w *W) {
 			c.try("C19-G2-duplicate/"+names[bi], ins)
 		}
 	}
+	// ---- G3: every varint field of every valid blob replaced by every boundary value ----
+	bvals := []uint64{0, 1, 2, 127, 128, 255, 256, 16383, 16384, 1 << 24, 1<<31 - 1, 1 << 31, 1<<32 - 1, 1 << 32, 1<<63 - 1, 1 << 63, 1<<63 + 1, ^uint64(0)}
+	malformed := [][]byte{{0x80}, {0xff, 0xff, 0xff, 0xff, 0xff, 0xff, 0xff, 0xff, 0xff, 0x7f}, {0xff, 0xff, 0xff, 0xff, 0xff, 0xff, 0xff, 0xff, 0xff, 0xff, 0x01}, {0x80, 0x80, 0x00}}
+	w.Note(fmt.Sprintf("G3: each of the 10 varint fields (comp size, tape size, strings size/block, message size/block, tags size/block, values size/block) of every valid blob replaced by each of %d boundary values (0, 1, 2^7, 2^14, 2^24, 2^31, 2^32, 2^63-1, 2^63, 2^63+1, 2^64-1, ...) and %d malformed encodings", len(bvals), len(malformed)))
+	for bi, b := range blobs {
+		fields := varintFields(b)
+		for fi, f := range fields {
+			w.res.States++
+			if !w.Mine() || w.Expired() || w.TooManyViolations() {
+				continue
+			}
+			var reps [][]byte
+			for _, v := range bvals {
+				reps = append(reps, uvar(v))
+			}
+			reps = append(reps, malformed...)
+			for _, r := range reps {
+				m := append(append(append([]byte(nil), b[:f[0]]...), r...), b[f[0]+f[1]:]...)
+				w.res.Transitions++
+				c.try(fmt.Sprintf("C19-G3-varint-field-%d/%s", fi, names[bi]), m)
+			}
+		}
+	}
 	// splices between the blobs of one tape in different modes, and between tapes in mode none
 	for ai := range blobs {
 		for bi := range blobs {
@@ -480,4 +503,49 @@ func tapeDepth(pj *simdjson.ParsedJson) int {
 		}
 	}
 	return max
+}
+
+// varintFields lists (offset, length) of the varint fields of a well-formed blob, in the
+// order Deserialize reads them.
+func varintFields(b []byte) [][2]int {
+	var out [][2]int
+	p := 1
+	uv := func() (uint64, bool) {
+		v, n := binary.Uvarint(b[p:])
+		if n <= 0 {
+			return 0, false
+		}
+		out = append(out, [2]int{p, n})
+		p += n
+		return v, true
+	}
+	block := func() bool {
+		sz, ok := uv()
+		if !ok || sz > uint64(len(b)-p) {
+			return false
+		}
+		p += int(sz)
+		return true
+	}
+	if _, ok := uv(); !ok {
+		return out
+	}
+	if _, ok := uv(); !ok {
+		return out
+	}
+	if _, ok := uv(); !ok {
+		return out
+	}
+	if !block() {
+		return out
+	}
+	for i := 0; i < 3; i++ {
+		if _, ok := uv(); !ok {
+			return out
+		}
+		if !block() {
+			return out
+		}
+	}
+	return out
 }
